@@ -34,6 +34,22 @@ def forest_prob(cfg, s, a, e):
     return 0.0 if e[0] == 1 else 1.0
 
 
+def forest_tables(cfg):
+    """(nxt, rew, prob) tables of the Forest problem (events: 0 = no fire, 1 = fire)."""
+    S, p, r1, r2 = cfg["S"], cfg["p"], cfg["r1"], cfg["r2"]
+    nxt = np.zeros((S, 2, 2), dtype=np.int32)
+    rew = np.zeros((S, 2, 2))
+    prob = np.zeros((S, 2, 2))
+    for s in range(S):
+        nxt[s, 0] = [min(s + 1, S - 1), 0]
+        prob[s, 0] = [1 - p, p]
+        rew[s, 0] = r1 if s == S - 1 else 0.0
+        nxt[s, 1] = [0, 0]
+        prob[s, 1] = [1, 0]
+        rew[s, 1] = r2 if s == S - 1 else (0.0 if s == 0 else 1.0)
+    return nxt, rew, prob
+
+
 def forest_sizes(cfg):
     return cfg["S"], 2, 2
 
